@@ -26,10 +26,12 @@ import ast
 # Control structure types that increase nesting depth
 _CONTROL_STRUCTURES = (
     ast.For,
+    ast.AsyncFor,
     ast.While,
     ast.With,
     ast.AsyncWith,
     ast.Try,
+    ast.TryStar,
     ast.Match,
     ast.match_case,
 )
